@@ -258,7 +258,7 @@ class JobFailed(object):
         self.detail = detail
 
     def __repr__(self):
-        return "JobFailed(%s, %s)" % (self.kind, self.detail[:300])
+        return "JobFailed(%s, ...%s)" % (self.kind, self.detail[-700:])
 
 
 def fork_call(fn, arg, timeout=120.0, tmpdir=None):
